@@ -28,16 +28,20 @@ type Step struct {
 	ID    uint16 `json:"id,omitempty"`
 	Dup   bool   `json:"dup,omitempty"`
 	Topic string `json:"topic,omitempty"`
+	// Retain / Empty: the RETAIN flag and a zero-length payload (together: "forget the retained
+	// message" — which is still a message for the subscribers and still has to be stored)
+	Retain bool `json:"retain,omitempty"`
+	Empty  bool `json:"empty,omitempty"`
 	// fault plan for the writes this step causes
 	FailNodes []int  `json:"fail_nodes,omitempty"` // node indices whose write fails
 	Mode      string `json:"mode,omitempty"`       // transport | rpc (remote log refuses) ; the local node always fails as "local log refuses"
 }
 
 type Case struct {
-	Nodes   int      `json:"nodes"`
-	Subs    []SubAt  `json:"subs"`
-	Clients int      `json:"clients"`
-	Steps   []Step   `json:"steps"`
+	Nodes   int     `json:"nodes"`
+	Subs    []SubAt `json:"subs"`
+	Clients int     `json:"clients"`
+	Steps   []Step  `json:"steps"`
 }
 
 type SubAt struct {
@@ -54,6 +58,10 @@ type pend struct {
 	payload string
 	topic   string
 }
+
+// emptyMark: appends of zero-length payloads cannot be told apart by content; they are
+// attributed to the step during which they happen (steps are sequential and settled)
+type marks []int
 
 func run(c Case) (f *failure, nontrivial bool) {
 	cl, err := sim.NewCluster()
@@ -103,10 +111,20 @@ func run(c Case) (f *failure, nontrivial bool) {
 		}
 		return D
 	}
+	var mark marks
+	setMark := func() {
+		mark = mark[:0]
+		for _, n := range cl.Nodes {
+			mark = append(mark, len(n.Log.Appends()))
+		}
+	}
 	appendsOf := func(payload string) (ok, failed map[int]int) {
 		ok, failed = map[int]int{}, map[int]int{}
 		for ni, n := range cl.Nodes {
-			for _, a := range n.Log.Appends() {
+			for ai, a := range n.Log.Appends() {
+				if payload == "" && ai < mark[ni] {
+					continue
+				}
 				if a.Payload == payload {
 					if a.Err {
 						failed[ni]++
@@ -133,6 +151,10 @@ func run(c Case) (f *failure, nontrivial bool) {
 		}
 		k := pubs[st.C]
 		payload := fmt.Sprintf("payload-%d", si)
+		if st.Empty {
+			payload = ""
+		}
+		setMark()
 		// arm the fault plan
 		failing := map[int]bool{}
 		arm := func() {
@@ -198,7 +220,7 @@ func run(c Case) (f *failure, nontrivial bool) {
 			case 0, 1:
 				arm()
 				before := count(k, sim.PUBACK, st.ID)
-				k.Send(sim.EncPublish(st.Topic, []byte(payload), byte(st.QoS), false, st.Dup, st.ID))
+				k.Send(sim.EncPublish(st.Topic, []byte(payload), byte(st.QoS), st.Retain, st.Dup, st.ID))
 				if f := settle(); f != nil {
 					return f, nontrivial
 				}
@@ -213,7 +235,7 @@ func run(c Case) (f *failure, nontrivial bool) {
 			case 2:
 				_, isPending := pending[st.C][st.ID]
 				recBefore := count(k, sim.PUBREC, st.ID)
-				k.Send(sim.EncPublish(st.Topic, []byte(payload), 2, false, st.Dup, st.ID))
+				k.Send(sim.EncPublish(st.Topic, []byte(payload), 2, st.Retain, st.Dup, st.ID))
 				if f := settle(); f != nil {
 					return f, nontrivial
 				}
@@ -273,7 +295,7 @@ func run(c Case) (f *failure, nontrivial bool) {
 		for ni, n := range cl.Nodes {
 			seen := map[string]int{}
 			for _, a := range n.Log.Appends() {
-				if !a.Err {
+				if !a.Err && a.Payload != "" {
 					seen[a.Payload]++
 					if seen[a.Payload] > 1 {
 						return &failure{fmt.Sprintf("after step %d: payload %q stored %d times on node %d", si, a.Payload, seen[a.Payload], ni), false}, nontrivial
@@ -355,6 +377,8 @@ func TestRandom(t *testing.T) {
 			switch x := rapid.IntRange(0, 9).Draw(t, "op"); {
 			case x < 5:
 				st.Op, st.QoS, st.Topic, st.Dup = "pub", rapid.IntRange(0, 2).Draw(t, "qos"), rapid.SampledFrom(topics).Draw(t, "topic"), rapid.IntRange(0, 3).Draw(t, "dup") == 0
+				st.Retain = rapid.IntRange(0, 2).Draw(t, "retain") == 0
+				st.Empty = rapid.IntRange(0, 3).Draw(t, "empty") == 0
 			case x < 9:
 				st.Op = "pubrel"
 			default:
@@ -394,9 +418,13 @@ func TestFaultSubsets(t *testing.T) {
 				{Op: "pubrel", ID: 2},
 				{Op: "pub", QoS: 0, ID: 0, Topic: "a", FailNodes: fn, Mode: mode},
 				{Op: "pub", QoS: 1, ID: 1, Topic: "a"},
+				{Op: "pub", QoS: 1, ID: 3, Topic: "a", Retain: true, Empty: true, FailNodes: fn, Mode: mode},
+				{Op: "pub", QoS: 2, ID: 4, Topic: "a", Retain: true, Empty: true, Dup: true},
+				{Op: "pubrel", ID: 4, FailNodes: fn, Mode: mode},
+				{Op: "pub", QoS: 1, ID: 3, Topic: "a", Retain: true},
 			}}
 			check(t, c, "fault-subset-enumeration")
 		}
 	}
-	ev.Exhaustive("3 nodes each hosting a matching subscriber: all 8 subsets of failing destinations x {peer unreachable, remote log refuses} (local node: local log refuses) for a QoS 1 publish, a QoS 2 PUBREL and a QoS 0 publish")
+	ev.Exhaustive("3 nodes each hosting a matching subscriber: all 8 subsets of failing destinations x {peer unreachable, remote log refuses} (local node: local log refuses) for a QoS 1 publish, a QoS 2 PUBREL, a QoS 0 publish, and the same with RETAIN and a zero-length payload (QoS 2 with DUP set)")
 }
